@@ -2,11 +2,13 @@ package checks
 
 import (
 	"fmt"
+	"reflect"
 	"runtime"
 	"runtime/debug"
 
 	"github.com/cloudwego/frugal"
 
+	"verif/gen"
 	"verif/harness"
 	"verif/ref"
 )
@@ -112,6 +114,34 @@ func runC18(c *harness.Ctx, idx int) {
 			c.Violation("encode-allocates", "C18/encode-allocates-after-gc", "EncodeObject(buf, nil, ptr) on an already used type allocates %d heap objects in the first call after a garbage collection, in every one of 3 attempts (type %s)", d, cc.S.Sig())
 		}
 		c.Tag("variant:after-gc")
+	}
+	if idx%8 == 3 {
+		// a value decoded with nocopy fields views its input buffer; writing it back into that
+		// very buffer (decode, patch, re-encode in place) is allocation-free like any other call
+		tc := gen.DefaultTypeCfg()
+		tc.NoCopy = true
+		tc.BigIDs = false
+		tc.MaxDepth = 2
+		ns := gen.RandomStruct(r, tc, 0)
+		if hasNoCopy(ns) {
+			nv := gen.NewValue(r, ns, gen.DefaultValCfg())
+			nwant := ref.Encode(ns, nv.Elem())
+			nbuf := make([]byte, 4*len(nwant)+4096) // the decoded value may encode longer (nil struct pointers come back as structs with their default fields)
+			if er := fEncode(nbuf, nv.Interface()); !er.panicked() && er.err == nil {
+				dst := reflect.New(ns.Go)
+				if dr := fDecode(nbuf[:er.n], dst.Interface()); !dr.panicked() && dr.err == nil {
+					dp := dst.Interface()
+					if sz := fSize(dp); sz.panicked() || sz.n > len(nbuf) {
+						c.Tag("skipped:in-place-buffer-too-small")
+					} else if wr := fEncode(nbuf, dp); wr.panicked() || wr.err != nil { // warm-up
+						c.Violation("encode-failed", "C18/in-place-encode-failed", "re-encoding a decoded nocopy value into its own input buffer (size %d, buffer %d): n=%d err=%v panic=%v type=%s", sz.n, len(nbuf), wr.n, wr.err, wr.pv, ns.Describe())
+					} else if d := measure(func() { n, _ := frugal.EncodeObject(nbuf, nil, dp); sink += n }); d > 0 {
+						c.Violation("encode-allocates", "C18/encode-allocates-in-place", "EncodeObject of a value whose nocopy fields view the destination buffer allocates: at least %d heap objects per %d calls in every one of 5 attempts (type %s)", d, K, ns.Sig())
+					}
+					c.Tag("variant:nocopy-in-place")
+				}
+			}
+		}
 	}
 	// alternating between two already used types must not allocate either
 	if c18PrevPtr != nil {
